@@ -679,8 +679,8 @@ func (h *Header) PeekMultiple(key string) []string {
 
 // AddHeaders adds multiple headers from a map.
 func (h *Header) AddHeaders(r map[string][]string) {
-	for k, v := range r {
-		for _, vv := range v {
+	for _, k := range sortedKeys(r) {
+		for _, vv := range r[k] {
 			h.Add(k, vv)
 		}
 	}
@@ -688,9 +688,9 @@ func (h *Header) AddHeaders(r map[string][]string) {
 
 // SetHeaders sets multiple headers from a map, overriding previously set values.
 func (h *Header) SetHeaders(r map[string]string) {
-	for k, v := range r {
+	for _, k := range sortedKeys(r) {
 		h.Del(k)
-		h.Set(k, v)
+		h.Set(k, r[k])
 	}
 }
 
@@ -710,8 +710,8 @@ func (p *QueryParam) Keys() []string {
 
 // AddParams adds multiple parameters from a map.
 func (p *QueryParam) AddParams(r map[string][]string) {
-	for k, v := range r {
-		for _, vv := range v {
+	for _, k := range sortedKeys(r) {
+		for _, vv := range r[k] {
 			p.Add(k, vv)
 		}
 	}
@@ -719,8 +719,8 @@ func (p *QueryParam) AddParams(r map[string][]string) {
 
 // SetParams sets multiple parameters from a map, overriding previously set values.
 func (p *QueryParam) SetParams(r map[string]string) {
-	for k, v := range r {
-		p.Set(k, v)
+	for _, k := range sortedKeys(r) {
+		p.Set(k, r[k])
 	}
 }
 
@@ -770,9 +770,20 @@ func (c Cookie) DelCookies(key ...string) {
 
 // VisitAll iterates through all cookies, calling f for each.
 func (c Cookie) VisitAll(f func(key, val string)) {
-	for k, v := range c {
-		f(k, v)
+	for _, k := range sortedKeys(c) {
+		f(k, c[k])
 	}
+}
+
+// sortedKeys returns the keys of m in ascending order: what is sent must not depend on
+// the iteration order of a map, which differs from one walk to the next.
+func sortedKeys[M ~map[string]V, V any](m M) []string {
+	keys := make([]string, 0, len(m))
+	for k := range m {
+		keys = append(keys, k)
+	}
+	sort.Strings(keys)
+	return keys
 }
 
 // Reset clears the Cookie map.
